@@ -24,12 +24,15 @@ RULE = ('chains of depth 10..2000 (quick) / 5000 (thorough) and wide fan-out gra
         'The count also sees what is done OUTSIDE the package on behalf of backward(): line events of every other Python frame entered during the call, calls into C-level functions (sys.setprofile c_call), and the garbage collections '
         'that run during the call weighted by the number of objects each has to scan (gc.callbacks; automatic collection is off for the duration, so these are collections the code asked for) — the sum AND each component on its own must grow at most linearly; '
         'next to the graphs of hundreds of ops every run builds LARGE ones (>= 2000 recorded ops at k, >= 4000 at 2k: chain and fan-out always, the other shapes drawn / all in the thorough tier), so that anything done once per N nodes or per N backward-function calls shows. '
+        'REPEATED backward() over the same graph with retained intermediates (retain_grads block around construction and calls / retain_grad() on every computed node / on runs of nodes; leaf gradients left, zero_()ed, rebound or dropped between the calls): the work of EVERY call (1st, 2nd, 3rd) is counted at k and 2k and must stay linear, '
+        'chains of >= 5000 recorded ops with every intermediate retained (block and marks) occur in every run and must complete on every call; a count that runs away (> 1500 units per node + edge) is abandoned and the family is compared at smaller sizes instead. '
         'LOOPS (kind loop, implementation only): untracked loops (no_grad around the loop / per step, or operands none of which requires grad) of N and then 3N more steps over randomly chosen step templates with '
         'STEP-DEPENDENT Python scalars (float, int, NumPy scalars, data-dependent), operators and r-operators, varying shapes, slicing, stack/unbind, reductions, activations, matmul, modules and losses; '
         'between the two phases nothing may grow: live Tensor objects (gc), gc-tracked objects, the size of every module-level / class-level / function-default / closure container of the synapgrad modules, traced memory. '
         'EVENTS inside the untracked region (one every 2..9 steps, drawn per case; every event occurs inside a no_grad region in every run): backward() of a graph recorded before the region (scalar root, loss of a model, twice in a row, a call that raises), '
         'optimizer.step() (SGD / momentum / Adam), zero_grad, Module.eval()/train() with forwards, nested no_grad / retain_grads blocks entered and left (also by exception, also by a layer rejecting its input), Trainer.test, Evaluator — after each event a result computed in the region must be untracked '
-        '(no grad_fn, no operands, requires_grad False), and nothing may grow.  The op-sequence programs (kind untracked) also call backward() of an earlier recorded graph inside the blocks and compare the modes and the flags of later results with the model. '
+        '(no grad_fn, no operands, requires_grad False), and nothing may grow.  VIEW loops: the state is replaced by a view of itself in every step and the previous tensor dropped — one loop per op that can return a view (reshape, flatten, nn.Flatten, transpose, movedim, moveaxis, squeeze, unsqueeze, slicing, unbind, chains of views) and loops over drawn subsets, shapes of rank 1..6, method and function spellings; '
+        'after every step the new state must not reach ANY other Tensor through its attributes (walk of gc.get_referents: instance dictionary, containers, closures, callable objects), and the live-Tensor / object / memory counts after N and 4N steps are compared as for the other loops.  The same walk is run on every untracked result of the op-sequence programs (every op of the catalogue) and on the final state / the probes of every loop.  The op-sequence programs (kind untracked) also call backward() of an earlier recorded graph inside the blocks and compare the modes and the flags of later results with the model. '
         'Non-trivial: depth >= 200 or fan-out >= 50 or an untracked op or a work / loop case.')
 EXHAUSTIVE = {'quick': False, 'thorough': False}
 ASSUMPTIONS = ['CPython reference counting frees unreachable tensors promptly (observed through weakref after gc.collect)']
@@ -180,7 +183,33 @@ def cases(rng, tier):
     return out
 
 
+def refs_failure(c):
+    """the program run once more with the tensor objects at hand: a result that came out untracked (no operands recorded, no
+    backward function, requires_grad False) must not point to any other Tensor through ANY attribute — its operands would live as
+    long as it does"""
+    im = tprog.Impl()
+    try:
+        T = im.sg.Tensor
+        for li, l in enumerate(c['lines']):
+            o = im.exec(l)
+            if not (l.startswith('t flags') and ' ' in o): continue
+            f = dict(kv.split('=') for kv in o.split(' '))
+            if f['rg'] != '0' or f['children'] != '0' or f['fn'] != '0': continue
+            k = int(l.split()[2])
+            t = im.ts[k] if k < len(im.ts) else None
+            if not isinstance(t, T): continue
+            hold = tensor_refs(t, T)
+            if hold:
+                return {'key': {'cls': 'holds-tensor', 'op': c.get('op')}, 'case': {'kind': c['kind'], 'op': c.get('op'), 'lines': c['lines'][:li + 1]},
+                        'what': f"the untracked result t{k} ({o}) holds {len(hold)} other Tensor object(s): " +
+                                ', '.join(f"{p_} -> {'operand t%d' % [id(q) for q in im.ts].index(id(r_)) if any(r_ is q for q in im.ts) else 'a Tensor'} of shape {tuple(r_.shape)}" for p_, r_ in hold[:3])}
+    finally:
+        im.close()
+    return None
+
+
 def impl(c):
+    if c['kind'] == 'untracked': c['_res'] = refs_failure(c)
     if c['kind'] == 'work': c['_res'] = work_failure(c)
     if c['kind'] == 'loop': c['_res'] = loop_failure(c)
     return _io(c)
@@ -195,6 +224,8 @@ def compare(c, mo, io):
     if c['kind'] == 'runtime':
         f = runtime_residue()
         if f: diffs.append(('runtime', 'deep chain / untracked loop', f['what']))
+    if c['kind'] == 'untracked' and c.get('_res'):
+        diffs.append(('untracked', 'an untracked result holds no reference to another Tensor', c['_res']['what']))
     if c['kind'] in ('work', 'loop') and c.get('_res'):
         diffs.append((c['kind'], 'backward linear in nodes + edges' if c['kind'] == 'work' else 'nothing grows with the number of untracked steps', c['_res']['what']))
     return diffs
@@ -212,6 +243,9 @@ def distribution(cases):
         if c['kind'] == 'work':
             d[f"work/{c['family']}"] = d.get(f"work/{c['family']}", 0) + 1
             d[f"work size/{c.get('size')} of ops"] = d.get(f"work size/{c.get('size')} of ops", 0) + 1
+            for k_ in (f"work backward() calls on the same graph/{c.get('passes', 1)}", f"work retained intermediates/{c.get('retain', WORK_RETAIN[0])}",
+                       f"work retained intermediates x size/{c.get('retain', WORK_RETAIN[0])}, {c.get('size')} of ops") + ((f"work between the calls/{c['between']}",) if c.get('passes', 1) > 1 else ()):
+                d[k_] = d.get(k_, 0) + 1
             if c.get('_metrics'):
                 d.setdefault('work/recorded ops at k (min, max)', [10 ** 9, 0])
                 mm = d['work/recorded ops at k (min, max)']
@@ -309,6 +343,40 @@ def work_cases(rng, tier):
     for rep in range(1 if tier == 'quick' else 2):
         for fam in big:
             out.append({'kind': 'work', 'family': fam, 'size': 'thousands', 'k': int(rng.randint(2050, 2600) * WORK_BIG.get(fam, 1)), 'variant': rng.randrange(1 << 16), 'lines': ['t modes']})
+    # REPEATED backward() over the SAME graph whose intermediates keep their gradients (built and differentiated inside
+    # retain_grads(), or retain_grad() marks on every / on some computed node), leaves zeroed / set to None / left alone in between:
+    # the work of EVERY pass (1st, 2nd, 3rd) is counted and must stay linear, and the deep chains (>= 5000 recorded ops at 2k,
+    # far beyond the recursion limit) must complete on every pass.  Every retain mode occurs in every run; a deep retained chain
+    # (block and marks) occurs in every run.
+    fixed = [('chain', 'thousands', 'retain_grads block', 2), ('chain', 'thousands', 'retain_grad on every node', 2),
+             ('chain', 'hundreds', 'retain_grad on every node', 3), ('lattice', 'hundreds', 'retain_grads block', 2), ('fan-out', 'hundreds', 'retain_grad on some nodes', 3)]
+    drawn = [(rng.pick(WORK_FAMILIES), 'hundreds', rng.pick(WORK_RETAIN[1:]), rng.randint(2, 3)) for _ in range(3 if tier == 'quick' else 24)]
+    drawn += [(rng.pick(WORK_FAMILIES), 'hundreds', WORK_RETAIN[0], rng.randint(2, 3)) for _ in range(1 if tier == 'quick' else 6)]
+    if tier != 'quick':
+        drawn += [(f, 'thousands', rng.pick(WORK_RETAIN[1:]), rng.randint(2, 3)) for f in big]
+    for fam, size, retain, passes in fixed + drawn:
+        k_ = rng.randint(300, 500) if size == 'hundreds' else int(rng.randint(2050, 2600) * WORK_BIG.get(fam, 1))
+        out.append({'kind': 'work', 'family': fam, 'size': size, 'k': k_, 'variant': rng.randrange(1 << 16), 'retain': retain, 'passes': passes,
+                    'between': rng.pick(WORK_BETWEEN), 'lines': ['t modes']})
+    return out
+
+
+WORK_RETAIN = ['nothing retained', 'retain_grads block', 'retain_grad on every node', 'retain_grad on some nodes']
+WORK_BETWEEN = ['leaves left alone', 'leaves zero_()', 'leaf .grad rebound to zeros', 'leaf gradients dropped']
+WORK_BUDGET = 1500          # units of work per node + edge above which a count is abandoned (the graphs of this file need 30..300)
+
+
+class OverBudget(Exception):
+    pass
+
+
+def graph_nodes(root):
+    seen, todo, out = {id(root)}, [root], []
+    while todo:
+        n = todo.pop(); out.append(n)
+        for ch in n._children:
+            if id(ch) not in seen:
+                seen.add(id(ch)); todo.append(ch)
     return out
 
 
@@ -383,7 +451,7 @@ def graph_size(root):
     return fns, len(seen), edges
 
 
-def count_backward(sg, root, base_objects=None):
+def count_backward(sg, root, base_objects=None, budget=None):
     """deterministic amount of work of root.backward(), by component:
     line / call   line events and calls of synapgrad frames;
     line_out      line events of every OTHER Python frame entered while backward() runs (helpers of NumPy, copy, gc callbacks, ... —
@@ -399,17 +467,23 @@ def count_backward(sg, root, base_objects=None):
     pkg = os.path.join(os.path.abspath(common.REPO), 'synapgrad') + os.sep
     mine = (os.path.abspath(__file__), os.path.abspath(common.__file__), contextlib.__file__)
     cnt = {'line': 0, 'call': 0, 'line_out': 0, 'c_call': 0, 'hash_eq': 0, 'gc_runs': 0, 'gc_scanned': 0, 'fn': 0}
+    lim = budget if budget is not None else float('inf')       # (a count that runs away — exponential re-walks — is abandoned, not waited for)
     def local(frame, event, arg):
-        if event == 'line': cnt['line'] += 1
+        if event == 'line':
+            cnt['line'] += 1
+            if cnt['line'] > lim: raise OverBudget()
         return local
     def local_out(frame, event, arg):
-        if event == 'line': cnt['line_out'] += 1
+        if event == 'line':
+            cnt['line_out'] += 1
+            if cnt['line_out'] > lim: raise OverBudget()
         return local_out
     def tracer(frame, event, arg):
         if event == 'call':
             fn_ = frame.f_code.co_filename
             if fn_.startswith(pkg):
                 cnt['call'] += 1
+                if cnt['call'] + cnt['c_call'] + cnt['hash_eq'] > lim: raise OverBudget()
                 return local
             if fn_ not in mine:
                 return local_out
@@ -443,6 +517,8 @@ def count_backward(sg, root, base_objects=None):
             sys.settrace(tracer)
             try:
                 root.backward()
+            except OverBudget:
+                cnt['over'] = True
             finally:
                 sys.settrace(old)
                 sys.setprofile(oldp)
@@ -460,36 +536,87 @@ WORK_PARTS = ['line', 'call', 'line_out', 'c_call', 'hash_eq', 'gc_scanned']
 
 def work_failure(c):
     sg = common.impl()
-    def fail(cls, what):
-        return {'key': {'cls': cls, 'family': c['family']}, 'what': what}
-    res = []
-    for k in (c['k'], 2 * c['k']):
-        try:
+    retain, passes, between = c.get('retain', WORK_RETAIN[0]), c.get('passes', 1), c.get('between', WORK_BETWEEN[0])
+    how = '' if passes == 1 and retain == WORK_RETAIN[0] else f" [backward() called {passes} times on the same graph; {retain}; between the calls: {between}]"
+    def fail(cls, what, **kw):
+        return {'key': dict({'cls': cls, 'family': c['family']}, **kw), 'what': what}
+    units = 'line events + calls in synapgrad frames + line events in other frames + C-level calls + tensor hash/eq calls + objects scanned by garbage collections'
+
+    def measure(k, budgets=None):
+        """[(nodes + edges, work, counts, recorded ops)] for every pass over the graph of size k; ('over', pass, size, budget) when a count was abandoned"""
+        block = sg.retain_grads() if retain == WORK_RETAIN[1] else contextlib.nullcontext()
+        with block:
             gc.collect()
             base = len(gc.get_objects())            # container objects alive before the graph exists
             root = build_graph(sg, c['family'], k, c['variant'])
             fns, nodes, edges = graph_size(root)
-            cnt = count_backward(sg, root, base)
-        except RecursionError:
-            return fail('recursion', f"backward on the {c['family']} graph of size {k} raised RecursionError")
-        if cnt['fn'] != fns:
-            return fail('calls', f"{c['family']} graph of size {k}: {cnt['fn']} grad_fn calls for {fns} recorded ops")
-        res.append((k, nodes + edges, sum(cnt[p_] for p_ in WORK_PARTS), cnt, fns))
-        del root
-    (k1, s1, w1, c1, f1), (k2, s2, w2, c2, f2) = res
-    c['_metrics'] = {'ops': (f1, f2), 'work': (w1, w2), 'parts': (c1, c2)}
-    gsize = s2 / max(s1, 1)
-    units = 'line events + calls in synapgrad frames + line events in other frames + C-level calls + tensor hash/eq calls + objects scanned by garbage collections'
-    # the sum, then every component on its own (a component that is small at size k can still be the one that explodes: it is
-    # judged as soon as it is a visible part — 2 % — of the work at size 2k)
-    for part, (a1, a2) in [('all', (w1, w2))] + [(p_, (c1[p_], c2[p_])) for p_ in WORK_PARTS]:
-        if part != 'all' and (a2 < max(1000, 0.02 * w2) or a1 < max(300, 0.005 * w1)): continue      # (absent at size k: a threshold, not a growth rate — the sum judges it)
-        growth = a2 / max(a1, 1)
-        if growth > WORK_RATIO * gsize / 2:
-            return fail('superlinear', f"backward over the {c['family']} graph (variant {c['variant']}): "
-                        + (f"{w1} units of work ({units})" if part == 'all' else f"component `{part}` of the work: {a1} units") +
-                        f" for {s1} nodes+edges / {f1} recorded ops at k={k1} ({a1 / s1:.1f} per item), {a2} for {s2} / {f2} at k={k2} ({a2 / s2:.1f} per item): it grows x{growth:.2f} when the graph grows x{gsize:.2f} "
-                        f"(linear = x{gsize:.2f}, quadratic = x{gsize * gsize:.2f}); counts {c1} -> {c2}")
+            all_nodes = graph_nodes(root)
+            leaves = [n for n in all_nodes if n.is_leaf and n.requires_grad]
+            if retain in WORK_RETAIN[2:]:
+                r = common.Rng(c['variant'] + 1)
+                run = 0
+                for n in all_nodes:
+                    if n.grad_fn is None or not n.requires_grad: continue
+                    if retain == WORK_RETAIN[3]:                      # runs of consecutive marked / unmarked nodes of random length
+                        if run == 0: run = r.randint(1, 40) * (1 if r.chance(.5) else -1)
+                        run -= 1 if run > 0 else -1
+                        if run < 0: continue
+                    n.retain_grad()
+            del all_nodes
+            res = []
+            for p in range(passes):
+                if p:
+                    for lf in leaves:
+                        if between == WORK_BETWEEN[1]: lf.zero_()
+                        elif between == WORK_BETWEEN[2]: lf.grad = sg.Tensor(np.zeros_like(lf.data))
+                        elif between == WORK_BETWEEN[3]:
+                            try: lf.grad = None
+                            except Exception: lf._grad = None
+                budget = budgets[p] if budgets else WORK_BUDGET * (nodes + edges)
+                cnt = count_backward(sg, root, base, budget)
+                if cnt.get('over'): return ('over', p, nodes + edges, budget)
+                if cnt['fn'] != fns:
+                    raise AssertionError(f"{c['family']} graph of size {k}{how}: {cnt['fn']} grad_fn calls for {fns} recorded ops in call {p + 1} of backward()")
+                res.append((nodes + edges, sum(cnt[p_] for p_ in WORK_PARTS), cnt, fns))
+            return res
+
+    k1 = c['k']
+    try:
+        while True:
+            k = k1
+            r1 = measure(k1)
+            if r1[0] != 'over': break
+            # the count ran away already at size k: compare smaller graphs of the same family instead (an exponential re-walk shows at any size)
+            if k1 < 16:
+                return fail('superlinear', f"backward over the {c['family']} graph (variant {c['variant']}){how}: more than {r1[3]} units of work ({units}) for {r1[2]} nodes+edges at k={k1} in call {r1[1] + 1}")
+            k1 = max(8, k1 // 6)
+        for m in (2, 4, 8):
+            k = m * k1
+            r2 = measure(k, [int(m * WORK_RATIO * w) + 5000 for (_, w, _, _) in r1])
+            # (a family whose size moves in steps can come out with the same graph at k and 2k once k had to be made small)
+            if k1 == c['k'] or r2[0] == 'over' or r2[0][0] >= 1.6 * r1[0][0]: break
+    except RecursionError:
+        return fail('recursion', f"backward on the {c['family']} graph of size {k}{how} raised RecursionError")
+    except AssertionError as e:
+        return fail('calls', str(e))
+    if r2[0] == 'over':
+        s1, w1, c1, f1 = r1[r2[1]]
+        return fail('superlinear', f"backward over the {c['family']} graph (variant {c['variant']}){how}, call {r2[1] + 1} of backward(): {w1} units of work ({units}) for {s1} nodes+edges / {f1} recorded ops at k={k1}, "
+                                   f"more than {r2[3]} (count abandoned) for {r2[2]} at k={k}: it grows more than x{r2[3] / max(w1, 1):.2f} when the graph grows x{r2[2] / max(s1, 1):.2f}", **({'pass': r2[1] + 1} if passes > 1 else {}))
+    c['_metrics'] = {'ops': (r1[0][3], r2[0][3]), 'work': (r1[-1][1], r2[-1][1]), 'parts': (r1[-1][2], r2[-1][2])}
+    for p in range(passes):
+        (s1, w1, c1, f1), (s2, w2, c2, f2) = r1[p], r2[p]
+        gsize = s2 / max(s1, 1)
+        # the sum, then every component on its own (a component that is small at size k can still be the one that explodes: it is
+        # judged as soon as it is a visible part — 2 % — of the work at size 2k)
+        for part, (a1, a2) in [('all', (w1, w2))] + [(p_, (c1[p_], c2[p_])) for p_ in WORK_PARTS]:
+            if part != 'all' and (a2 < max(1000, 0.02 * w2) or a1 < max(300, 0.005 * w1)): continue      # (absent at size k: a threshold, not a growth rate — the sum judges it)
+            growth = a2 / max(a1, 1)
+            if growth > WORK_RATIO * gsize / 2:
+                return fail('superlinear', f"backward over the {c['family']} graph (variant {c['variant']}){how}" + (f", call {p + 1} of backward()" if passes > 1 else '') + ": "
+                            + (f"{w1} units of work ({units})" if part == 'all' else f"component `{part}` of the work: {a1} units") +
+                            f" for {s1} nodes+edges / {f1} recorded ops at k={k1} ({a1 / s1:.1f} per item), {a2} for {s2} / {f2} at k={k} ({a2 / s2:.1f} per item): it grows x{growth:.2f} when the graph grows x{gsize:.2f} "
+                            f"(linear = x{gsize:.2f}, quadratic = x{gsize * gsize:.2f}); counts {c1} -> {c2}", **({'pass': p + 1} if passes > 1 else {}))
     return None
 
 
@@ -528,7 +655,106 @@ def loop_cases(rng, tier):
             events = []
         out.append({'kind': 'loop', 'scenario': scenario, 'steps': steps, 'd': rng.pick([1, 3, 8]), 'events': events, 'every': rng.randint(2, 9), 'opt': rng.pick(['sgd', 'sgd-momentum', 'adam']),
                     'n': rng.randint(60, 120) if tier == 'quick' else rng.randint(150, 500), 't0': rng.randrange(10 ** 6), 'lines': ['t modes']})
+    # VIEW loops: the state is replaced by a VIEW of itself in every step (`x = x.transpose(i, j)`, `x = x.reshape(...)`, ...), the
+    # previous tensor is dropped.  Every op that can return a view has a loop of its own (what one op pins is only seen to
+    # accumulate when every step of the loop goes through it), then loops over drawn subsets (ops that keep the buffer
+    # contiguous, ops that do not, all of them), with and without events, in the three scenarios.
+    nv = 0
+    for rep in range(1 if tier == 'quick' else 3):
+        sets = [[v] for v in VIEW_STEPS]
+        for grp in (VIEW_CONTIGUOUS, VIEW_STRIDED, VIEW_STEPS, VIEW_CONTIGUOUS if rng.chance(.5) else VIEW_STRIDED):
+            sets.append([rng.pick(grp) for _ in range(rng.randint(2, 5))])
+        for steps in sets:
+            scenario = LOOP_SCENARIOS[nv % 3] if rng.chance(.7) else rng.pick(LOOP_SCENARIOS)
+            events = [rng.pick(LOOP_EVENTS) for _ in range(rng.randint(1, 2))] if nv % 5 == 4 else []
+            nv += 1
+            out.append({'kind': 'loop', 'scenario': scenario, 'steps': steps, 'views': True, 'shape': rng.pick([(2, 3, 4), (4, 6), (24,), (1, 5, 1, 2), (3, 1, 8)]), 'd': 3, 'events': events, 'every': rng.randint(2, 9),
+                        'opt': rng.pick(['sgd', 'sgd-momentum', 'adam']), 'n': rng.randint(60, 120) if tier == 'quick' else rng.randint(150, 500), 't0': rng.randrange(10 ** 6), 'lines': ['t modes']})
     return out
+
+
+VIEW_STEPS = ['view:reshape', 'view:flatten', 'view:nn.Flatten', 'view:transpose', 'view:movedim', 'view:moveaxis', 'view:squeeze', 'view:unsqueeze', 'view:slice', 'view:unbind', 'view:chain']
+VIEW_CONTIGUOUS = ['view:reshape', 'view:flatten', 'view:nn.Flatten', 'view:squeeze', 'view:unsqueeze', 'view:slice', 'view:unbind']       # a reshape of their results is again a view
+VIEW_STRIDED = ['view:transpose', 'view:movedim', 'view:moveaxis', 'view:squeeze', 'view:unsqueeze', 'view:slice', 'view:unbind', 'view:chain']
+
+
+def view_step(sg, name, x, t, memo={}):
+    """x replaced by a view of itself (any shape in, any shape of the same number of elements out); method and function spellings alternate"""
+    sh = tuple(int(q) for q in x.shape); nd = len(sh)
+    n = int(np.prod(sh)) if sh else 1
+    fn = (t // 3) % 2 == 0
+    if nd == 0: return x.reshape((1,))
+    if name == 'view:reshape':
+        divs = [q for q in range(1, n + 1) if n % q == 0]
+        f = divs[t % len(divs)]
+        shape = [(n,), (f, n // f), (f, -1), (1, f, n // f), (-1,)][(t // len(divs)) % 5]
+        if shape == sh: shape = (n // f, f)
+        return sg.reshape(x, shape) if fn else x.reshape(shape)
+    if name in ('view:flatten', 'view:nn.Flatten'):
+        if nd == 1 and t % 3: return x.reshape((2, n // 2)) if n % 2 == 0 and t % 2 else x.reshape((1, n, 1))         # (something to flatten in the next round)
+        a = t % nd; b = a + (t // nd) % (nd - a)
+        if name == 'view:nn.Flatten':
+            key = (id(sg), a, b)
+            if key not in memo: memo[key] = sg.nn.Flatten(a, b)         # layer objects are built once and called again and again
+            return memo[key](x)
+        return sg.flatten(x, a, b) if fn else x.flatten(a, b) if t % 4 else x.flatten()
+    if name in ('view:transpose', 'view:movedim', 'view:moveaxis'):
+        i = t % nd; j = (i + 1 + (t // nd) % max(nd - 1, 1)) % nd
+        if t % 5 == 0: i, j = i - nd, j           # negative spelling
+        if name == 'view:transpose': return sg.transpose(x, i, j) if fn else x.transpose(i, j)
+        if name == 'view:movedim': return sg.movedim(x, i, j) if fn else x.movedim(i, j)
+        return x.moveaxis(i, j)
+    if name == 'view:squeeze':
+        ones = [k for k, q in enumerate(sh) if q == 1]
+        if not ones: return x.unsqueeze(t % (nd + 1)) if nd < 6 else x.squeeze()
+        dim = None if t % 3 == 0 else ones[t % len(ones)] if t % 3 == 1 else tuple(ones[:1 + t % len(ones)])
+        return sg.squeeze(x, dim) if fn else x.squeeze(dim)
+    if name == 'view:unsqueeze':
+        if nd >= 6: return x.squeeze() if 1 in sh else x.flatten(0, 1)
+        dim = t % (nd + 1) - (nd + 1 if t % 4 == 0 else 0)
+        return sg.unsqueeze(x, dim) if fn else x.unsqueeze(dim)
+    if name == 'view:slice':
+        k = t % 6
+        return x[:] if k == 0 else x[...] if k == 1 else x[0:sh[0]] if k == 2 else x[::1] if k == 3 else x[..., :] if k == 4 else x[None][0]
+    if name == 'view:unbind':
+        ones = [k for k, q in enumerate(sh) if q == 1]
+        if ones and nd > 1: return sg.unbind(x, ones[t % len(ones)])[0]
+        return sg.unbind(x.unsqueeze(0), 0)[0] if t % 2 else sg.unbind(x.unsqueeze(nd), nd)[0]
+    if name == 'view:chain':
+        k = t % 4
+        if k == 0: return x.unsqueeze(0).transpose(0, 1).squeeze(1)
+        if k == 1: return x.movedim(0, -1).movedim(-1, 0)
+        if k == 2: return sg.unbind(x.unsqueeze(0).transpose(0, nd), nd)[0][None].transpose(0, nd).squeeze(nd) if nd > 1 else x[None].transpose(0, 1)[:, 0]
+        return x.transpose(0, nd - 1)[...].unsqueeze(0)[0]
+    raise ValueError(name)
+
+
+_SKIP_REFS = (type, types.ModuleType, types.BuiltinFunctionType, types.FrameType, types.CodeType, np.ndarray, np.generic, str, bytes, int, float, complex, bool, type(None))
+
+
+def tensor_refs(t, T, max_depth=8, max_objs=4000):
+    """the OTHER Tensor objects reachable from t through its attributes — [(path, tensor)] — found by walking the referents
+    (gc.get_referents: instance dictionary, slots, containers, closure cells, bound methods, callable objects), not through the
+    globals of functions, not through classes / modules / arrays"""
+    found, seen, todo = [], {id(t)}, [(t, 't', 0)]
+    while todo and len(seen) < max_objs:
+        o, path, dep = todo.pop()
+        if isinstance(o, types.FunctionType):
+            refs = [('<closure>', c_) for c_ in (o.__closure__ or ())] + [('<defaults>', o.__defaults__), ('<kwdefaults>', o.__kwdefaults__), ('__dict__', o.__dict__)]
+        elif isinstance(o, dict):
+            refs = [(f'[{k_!r}]' if isinstance(k_, str) else '[key]', v_) for k_, v_ in o.items()] + [('<key>', k_) for k_ in o if not isinstance(k_, str)]
+        else:
+            refs = [(f'<{type(r_).__name__}>', r_) for r_ in gc.get_referents(o)]
+            d_ = getattr(o, '__dict__', None)
+            if isinstance(d_, dict):         # name the attributes
+                refs = [('.' + k_, v_) for k_, v_ in d_.items()] + [r_ for r_ in refs if r_[1] is not d_]
+        for nm, r in refs:
+            if r is None or isinstance(r, _SKIP_REFS) or id(r) in seen: continue
+            seen.add(id(r))
+            if isinstance(r, T):
+                found.append((path + nm, r)); continue
+            if dep + 1 < max_depth: todo.append((r, path + nm, dep + 1))
+    return found
 
 
 def _loop_runner(sg, c):
@@ -644,15 +870,33 @@ def _loop_runner(sg, c):
         st['events run'] = st.get('events run', 0) + 1
         # still untracked?  a result computed in the region right after the event
         r = (pw * 2.0 + pw) if (ng_all or ng_step) else (pq * 2.0 + pq)
+        if 'bad' not in st and not (r.requires_grad or r.grad_fn is not None or len(r._children)) and tensor_refs(r, sg.Tensor, max_depth=4, max_objs=200):
+            st['bad'] = (name, f"after the event `{name}` (step {t}) a result computed in the same untracked region holds other Tensor objects: {[p_ for p_, _ in tensor_refs(r, sg.Tensor, max_depth=4, max_objs=200)][:3]}")
         if (r.requires_grad or r.grad_fn is not None or len(r._children)) and 'bad' not in st:
             st['bad'] = (name, f"after the event `{name}` (step {t}) a result computed in the same untracked region ({'inside the no_grad block, from a leaf that requires grad' if (ng_all or ng_step) else 'from operands that do not require grad'}) "
                                f"is tracked: requires_grad={r.requires_grad} grad_fn={'set' if r.grad_fn is not None else None} operands kept={len(r._children)}")
+
+    views = bool(c.get('views'))
+    if views:
+        st['x'] = sg.Tensor(np.arange(float(np.prod(c['shape']))).reshape(c['shape']), requires_grad=rg)
+    T = sg.Tensor
 
     def one(t):
         if events and t % every == 0: event(t)
         x = st['x']
         for name in c['steps']:
-            x = step(name, x, t)
+            if views:
+                x0 = x
+                x = view_step(sg, name, x, t)
+                # the new state must not point back to ANY tensor (the one it was computed from included), through whatever attribute
+                if 'pinned' not in st and x is not x0:
+                    hold = tensor_refs(x, T, max_depth=4, max_objs=200)
+                    if hold:
+                        st['pinned'] = (name, f"step {t}: the result of `{name}` on a tensor of shape {tuple(x0.shape)} (result shape {tuple(x.shape)}, requires_grad={x.requires_grad}, operands recorded={len(x._children)}) "
+                                              f"holds {len(hold)} other Tensor object(s): " + ', '.join(f"{p_} -> {'its operand' if r_ is x0 else 'a Tensor'} of shape {tuple(r_.shape)}" for p_, r_ in hold[:3]))
+                del x0
+            else:
+                x = step(name, x, t)
         st['x'] = x
 
     def run(t_first, n):
@@ -777,6 +1021,11 @@ def loop_failure(c):
         return fail('history-after-event', st['bad'][1], event=st['bad'][0])
     if x.requires_grad or len(x._children) or x.grad_fn is not None:
         return fail('history', f'the result is tracked: requires_grad={x.requires_grad} children={len(x._children)} grad_fn={x.grad_fn}')
+    if st.get('pinned'):
+        return fail('holds-tensor', st['pinned'][1] + f'; live Tensor objects after {n} steps: {liveA}, after {4 * n} steps: {liveB}', step=st['pinned'][0])
+    hold = tensor_refs(x, T)
+    if hold:
+        return fail('holds-tensor', f"the untracked state after {4 * n + 20} steps holds {len(hold)} other Tensor object(s): " + ', '.join(f'{p_} -> Tensor of shape {tuple(r_.shape)}' for p_, r_ in hold[:3]), step=c['steps'][-1])
     grown = {k: (contA.get(k, 0), v) for k, v in contB.items() if v - contA.get(k, 0) > 2}
     if grown:
         return fail('container', f'persistent containers grew during {3 * n} further steps (size after {n} steps, after {4 * n} steps): {grown}')
@@ -804,6 +1053,9 @@ def oracle(c):
                     c, f = c2, f2
                     break
         return dict(f, case={k: v for k, v in c.items() if not k.startswith('_') and k != 'desc'}) if f else None
+    if c['kind'] == 'untracked':
+        f = refs_failure(c)
+        if f: return f
     io = _io(c)
     depth = 0
     for li, (l, o) in enumerate(zip(c['lines'], io)):
